@@ -51,7 +51,7 @@ SEEDS.update({k: tuple(v) for k, v in EXTRA.items()})
 
 only = sys.argv[1:]
 for sd, (prop, needs, checks) in SEEDS.items():
-    name = sd.replace("seed-", "").replace("seed2-", "").replace("seed3-", "").replace("seed4-", "").replace("seed5-", "").replace("seed6-", "").replace("seed7-", "").replace("/", "-") + ("-r2" if sd.startswith("seed2-") else "-r3" if sd.startswith("seed3-") else "-r4" if sd.startswith("seed4-") else "-r5" if sd.startswith("seed5-") else "-r6" if sd.startswith("seed6-") else "-r7" if sd.startswith("seed7-") else "")
+    name = sd.replace("seed-", "").replace("seed2-", "").replace("seed3-", "").replace("seed4-", "").replace("seed5-", "").replace("seed6-", "").replace("seed7-", "").replace("seed8-", "").replace("/", "-") + ("-r2" if sd.startswith("seed2-") else "-r3" if sd.startswith("seed3-") else "-r4" if sd.startswith("seed4-") else "-r5" if sd.startswith("seed5-") else "-r6" if sd.startswith("seed6-") else "-r7" if sd.startswith("seed7-") else "-r8" if sd.startswith("seed8-") else "")
     if only and name not in only:
         continue
     src = "/tmp/" + sd
@@ -65,7 +65,7 @@ for sd, (prop, needs, checks) in SEEDS.items():
     if os.path.exists(src + "/README.md"):
         shutil.copy(src + "/README.md", out + "/notes.md")
     conf = {}
-    cj = "/tmp/confirm/" + sd.replace("seed-", "").replace("seed2-", "r2_").replace("seed3-", "r3_").replace("seed4-", "r4_").replace("seed5-", "r5_").replace("seed6-", "r6_").replace("seed7-", "r7_").replace("/", "_") + ".json"
+    cj = "/tmp/confirm/" + sd.replace("seed-", "").replace("seed2-", "r2_").replace("seed3-", "r3_").replace("seed4-", "r4_").replace("seed5-", "r5_").replace("seed6-", "r6_").replace("seed7-", "r7_").replace("seed8-", "r8_").replace("/", "_") + ".json"
     if os.path.exists(cj):
         conf = json.load(open(cj))
     r = subprocess.run(["git", "-C", "/repo", "apply", out + "/patch.diff"], capture_output=True, text=True)
